@@ -174,15 +174,29 @@ static void do_sv(const std::vector<std::string>& t, const std::string& line) {
         bool ok = r >= 0 && r < 3;
         bool two = (op == "swap" || op == "movector" || op == "massign");
         if (ok && two) ok = a >= 0 && a < 3 && sv[a] != nullptr;
-        if (ok && (op == "new" || op == "movector")) ok = sv[r] == nullptr && (op == "new" || a != r) && a >= 0;
+        if (ok && (op == "new" || op == "movector" || op == "tnew")) ok = sv[r] == nullptr && (op != "movector" || a != r) && a >= 0;
         else if (ok) ok = sv[r] != nullptr;
         if (ok && (op == "set" || op == "get")) ok = a >= 0 && static_cast<size_t>(a) < sv[r]->size();
-        if (ok && op == "resize") ok = a >= 0;
+        if (ok && (op == "resize" || op == "tresize")) ok = a >= 0;
+        if (ok && (op == "tnew" || op == "tresize")) ok = b >= 1;
         if (!ok) { vh::answer("bad-op"); return; }
     }
     uint64_t adj = 0;  // temporaries created by the harness itself
     if (op == "new") sv[r] = new (sv_store[r]) SV(static_cast<size_t>(a));
     else if (op == "resize") sv[r]->resize(static_cast<size_t>(a));
+    else if (op == "tnew") {
+        // construction of the b-th element throws: the constructor must not leave anything behind
+        L.throw_countdown = b;
+        try { sv[r] = new (sv_store[r]) SV(static_cast<size_t>(a)); }
+        catch (const std::runtime_error&) { sv[r] = new (sv_store[r]) SV(); ret = "threw"; }
+        L.throw_countdown = -1;
+    }
+    else if (op == "tresize") {
+        L.throw_countdown = b;
+        try { sv[r]->resize(static_cast<size_t>(a)); }
+        catch (const std::runtime_error&) { ret = "threw"; }
+        L.throw_countdown = -1;
+    }
     else if (op == "destroy") sv[r]->destroy();
     else if (op == "dtor") { sv[r]->~SV(); sv[r] = nullptr; }
     else if (op == "fill") { Tracked x(a); sv[r]->fill(x); adj = 1; }
